@@ -172,9 +172,19 @@ func GenC16(seed uint64) *Scenario {
 				s.MaxF[k] = 2
 			}
 		}
-		// at most two deadline errors per run (three on one job are fatal by design)
-		if s.Rates["deadline_at_call"] > 0 && s.Rates["deadline_mid_stream"] > 0 {
-			s.MaxF["deadline_at_call"], s.MaxF["deadline_mid_stream"] = 1, 1
+		// three execution timeouts on ONE job are fatal by design; the simulator never injects more than two on a
+		// job unit (core.go faultFor), so any number of them spread over the jobs of a request must be survived
+		if r.Chance(1, 4) {
+			s.Family = "timeouts_across_jobs"
+			q.Prod = true
+			q.DebugSnap = nil
+			for _, k := range []string{"deadline_at_call", "deadline_mid_stream"} {
+				if r.Chance(2, 3) || (k == "deadline_mid_stream" && s.Rates["deadline_at_call"] == 0) {
+					s.Rates[k] = []int{300, 600}[r.Intn(2)]
+					s.MaxF[k] = r.Range(2, 5)
+				}
+			}
+			q.Workers = uint64(r.Range(1, 2))
 		}
 		if r.Chance(1, 4) {
 			s.NTier2 = 1
